@@ -236,7 +236,7 @@ def configurations(tier, seed):
     # H. several diff nodes expanded in ONE call (shared dispatcher / ruleset caches) ----------------
     vq = variable(w)          # a second variable of the same coefficient (different label)
     for nm, f1, x1, f2, x2 in [("two_vars", v * v * f, v, ve * ve * g, ve), ("same_expr", v * vq * vq, v, v * vq * vq, vq),
-                               ("same_var", v * v * f, v, ufl.sin(v) * g, v), ("var_coef", v * w * w, v, v * w * w, w),
+                               ("same_var", v * v * f, v, ufl.sin(v) * g, v), ("var_coef", v * f * f + v * v, v, g * w * w * f, w),
                                ("wrapped", vdx * vdx * v, vdx, vdx * vdx * v, v)]:
         for mode in ("sum", "prod"):
             cfgs.append(Cfg(f"i_{nm}_{mode}", f1, [x1], part2=(f2, x2, mode),
